@@ -220,6 +220,26 @@ class Executor(object):
                 self.add(e)
             o = self.guard("ConvexPolyhedron(shared polygons)", lambda: G.ConvexPolyhedron(tuple(f.obj for f in faces)))
             self.add(Entry("K", o, X.make_K(d), faces, label="ConvexPolyhedron(shared polygons)"))
+        elif name == "mkneg":
+            # -polygon is a polygon in its own right: it must own its data like any other (a later move of the
+            # original, or of the negation, must leave the other one where it is)
+            polys = [e for e in self.objs if e.kind == "G"]
+            if not polys:
+                return
+            src = polys[a[0] % len(polys)]
+            o = self.guard("-ConvexPolygon", lambda: -src.obj)
+            self.add(Entry("G", o, ("G", list(src.desc[1])), (src,), label="negation of a pool polygon"))
+        elif name == "mksub":
+            # objects handed out by accessors of a pool object: an edge of a polygon, a face of a polyhedron
+            srcs = [e for e in self.objs if e.kind in ("G", "K")]
+            if not srcs:
+                return
+            src = srcs[a[0] % len(srcs)]
+            if src.kind == "G":
+                segs = self.guard("segments()", lambda: list(src.obj.segments()))
+                sg = segs[a[1] % len(segs)]
+                d = ("S", tuple(F(c) for c in B._xyz(sg.start_point)), tuple(F(c) for c in B._xyz(sg.end_point)))
+                self.add(Entry("S", sg, d, (src,), owns=True, label="edge handed out by ConvexPolygon.segments()"))
         elif name.startswith("mut"):
             self.mutate(name, a)
         elif name == "query":
@@ -263,6 +283,14 @@ class Executor(object):
             c = list(target.desc[1])
             c[a[1] % 3] = val
             target.desc = ("V", tuple(c))
+        elif name == "mut_objmove":
+            cands = [e for e in self.objs if e.kind in ("S", "H", "G") and e.owns]
+            if not cands:
+                return
+            target = cands[a[0] % len(cands)]
+            v = MOVES[a[1] % len(MOVES)]
+            self.guard("%s.move" % target.kind, lambda: target.obj.move(B.vec(v)))
+            target.desc = X.translate(target.desc, v)
         elif name == "mut_polymove":
             polys = [e for e in self.objs if e.kind == "G"]
             if not polys:
@@ -296,7 +324,7 @@ class Executor(object):
                 raise Fail("a %s edited in place is not equal to a fresh one with the same coordinates" % target.label, {"model": target.desc}, self.facts)
             if self.guard("hash", lambda: hash(target.obj)) != self.guard("hash", lambda: hash(fresh)):
                 raise Fail("a %s edited in place hashes unlike a fresh one with the same coordinates" % target.label, {"model": target.desc}, self.facts)
-        if target.kind == "G":
+        if target.kind in ("G", "S", "H"):
             self.check_entry(target, "after it was moved")
 
     # ---- queries
@@ -494,6 +522,9 @@ def machine(ctx):
         "mutP_item": (ip, st.integers(0, 2), st.integers(0, len(VALS) - 1)),
         "mutV_item": (iv, st.integers(0, 2), st.integers(0, len(VALS) - 1)),
         "mut_polymove": (io, st.integers(0, len(MOVES) - 1)),
+        "mut_objmove": (io, st.integers(0, len(MOVES) - 1)),
+        "mkneg": (io,),
+        "mksub": (io, io),
         "query": (st.integers(0, 9), io, io),
         "query2": (st.integers(0, 9), io, io),
         "query3": (st.integers(0, 9), io, io),
